@@ -54,7 +54,7 @@ MODELS = [
     ]),
     ('styled', Z.Styled, [Z.Styled, Z.Color, Z.Ident, Z.UStr, Z.Ver], [
         M(col=S('red'), name=S('abc'), v=S('1.2'), cols=Q(B('true')),
-          by=M(k1=I(1))),
+          by=M(k1=I(1)), bu=M(uk=I(2)), bv=M(('1.2', I(3)))),
         M(col=B('true'), name=S('n'), u=S('any thing'), cb=B('true'),
           cols=Q(S('green'))),
     ]),
@@ -80,6 +80,9 @@ MODELS = [
         M(first=I(0), r=M(a=I(1), b=I(2), c=I(3), d=I(4), e=I(5)),
           last=I(9)),
     ]),
+    ('firm', Z.Firm, [Z.Firm, Z.Staff, Z.Ident], [
+        M(employees=M(mary=M(role=S('boss')), bob=S('clerk'))),
+    ]),
     ('order', Z.Order, [Z.Order, Z.Item], [
         M(('customer-name', S('x')),
           ('items', M(i1=F(1.5), i2=M(price=F(2.5), description=S('d')))),
@@ -101,8 +104,8 @@ MODELS = [
     ]),
 ]
 CORE = {m[0] for m in MODELS if not m[0].startswith('trap_')
-        and m[0] not in ('order', 'typed', 'req4')}
-GROUP_C02 = (CORE - {'perm'}) | {'order'}
+        and m[0] not in ('order', 'typed', 'req4', 'firm')}
+GROUP_C02 = (CORE - {'perm'}) | {'order', 'firm'}
 GROUP_C04 = {'trap_loose', 'trap_any', 'trap_dict', 'trap_typed', 'loose',
              'top_any'}
 MODEL_IDX = {m[0]: i for i, m in enumerate(MODELS)}
